@@ -21,7 +21,7 @@ import (
 func init() { register("C11", checkC11) }
 
 func checkC11(c *core.Ctx) {
-	c.Explainf("C11 (decided clause: the discipline of the pending 'next record' attributes; faithfulness of a parser as a whole is behaviour and is NOT decided). R1: for the definition loop of ReadFile and the member loops of readEnum/readStruct/readMessage/readUnion, the loop-carried locals that hold a pending attribute (comment lines, opcode, readonly, flags; per-member comment, tags, deprecation) form a typestate {clear, maybe-set}; on every CFG path (go/cfg, with refinement on `if v`/`if v != 0` guards, iterated to a fixpoint over the loop) an iteration that completed a definition reaches the loop head with every pending attribute clear — an attribute annotates one definition and no other. R1b: an iteration that matched a token but completed no definition does not clear a pending opcode/readonly/flags/deprecation (the attribute would be lost before its definition). R2: every definition kind either consumes or rejects each of opcode and flags (kind x attribute matrix). R3: evaluateBitflagExpr instantiates the evaluator with the integer type of exactly the signedness and width it dispatches on, and covers the image of decodeIntegerType. R4: skipFollowingWhitespace skips every byte the token tree treats as insignificant. R5: whether a member is deprecated is recorded by a pure flag set in the clause that called readDeprecated, never derived from the message text (`[deprecated(\"\")]` is well formed). R6: the tokenizer uses no bufio primitive bounded by the buffer size (ReadSlice, ReadLine, Peek, Scanner): comments and literals have no length limit (positive control: fixtures/limitedread). R7: in numberToken's chain of byte classes, for every letter a-f/A-F and every assignment of the boolean locals with the hex flag(s) set, the first condition that holds is the hex-digit arm's (finite decision table over the conditions, the package's one-line predicates inlined). R8: every loop of parse_expr.go that looks for the `)` closing a group also looks at `(` and keeps a depth count. NOT decided: token-to-field mapping, source order, layout independence beyond R4.")
+	c.Explainf("C11 (decided clause: the discipline of the pending 'next record' attributes; faithfulness of a parser as a whole is behaviour and is NOT decided). R1: for the definition loop of ReadFile and the member loops of readEnum/readStruct/readMessage/readUnion, the loop-carried locals that hold a pending attribute (comment lines, opcode, readonly, flags; per-member comment, tags, deprecation) form a typestate {clear, maybe-set}; on every CFG path (go/cfg, with refinement on `if v`/`if v != 0` guards, iterated to a fixpoint over the loop) an iteration that completed a definition reaches the loop head with every pending attribute clear — an attribute annotates one definition and no other. R1b: an iteration that matched a token but completed no definition does not clear a pending opcode/readonly/flags/deprecation (the attribute would be lost before its definition). R2: every definition kind either consumes or rejects each of opcode and flags (kind x attribute matrix). R3: evaluateBitflagExpr instantiates the evaluator with the integer type of exactly the signedness and width it dispatches on, and covers the image of decodeIntegerType. R4: skipFollowingWhitespace skips every byte the token tree treats as insignificant. R5: whether a member is deprecated is recorded by a pure flag set in the clause that called readDeprecated, never derived from the message text (`[deprecated(\"\")]` is well formed). R6: the tokenizer uses no bufio primitive bounded by the buffer size (ReadSlice, ReadLine, Peek, Scanner): comments and literals have no length limit (positive control: fixtures/limitedread). R7: in numberToken's chain of byte classes, for every letter a-f/A-F and every assignment of the boolean locals with the hex flag(s) set, the first condition that holds is the hex-digit arm's (finite decision table over the conditions, the package's one-line predicates inlined). R8: every loop of parse_expr.go that looks for the `)` closing a group also looks at `(` and keeps a depth count. R9: every table from spellings to token kinds holds only the format's reserved words (a spec-side list). NOT decided: token-to-field mapping, source order, layout independence beyond R4.")
 	p := loadRepo(c)
 	if p == nil {
 		return
@@ -47,6 +47,7 @@ func checkC11(c *core.Ctx) {
 	limitedBufio(c, p, "R6")
 	hexLettersAreDigits(c, p)
 	groupScansCountNesting(c, p)
+	reservedWordsAreTheFormats(c, p)
 }
 
 // whitespaceAgreement: R4. Two places decide what is insignificant
@@ -1237,5 +1238,66 @@ func groupScansCountNesting(c *core.Ctx, p *load.Prog) {
 	c.Count("paren_group_scans", n)
 	if n == 0 {
 		c.Undecide("parse_expr.go: no loop scans for a closing parenthesis: how groups are delimited is not recognised")
+	}
+}
+
+// reservedWordsAreTheFormats: R9. An identifier is a reserved word exactly
+// when it is spelled like one of the format's: every package-level table
+// from spellings to token kinds (map[string]tokenKind) holds no key outside
+// the format's reserved words (transcribed here from the Bebop language
+// description, independently of the repository). A table that also answers to
+// `True`, `Inf` or `Struct` turns legal field, option and type names into
+// keywords: `enum Answer { False = 0; True = 1; }` loses its members without
+// an error.
+func reservedWordsAreTheFormats(c *core.Ctx, p *load.Prog) {
+	pkg := p.Bebop()
+	info := pkg.TypesInfo
+	spec := map[string]bool{
+		"readonly": true, "mut": true, "message": true, "struct": true, "enum": true, "union": true,
+		"const": true, "import": true, "array": true, "map": true,
+		"true": true, "false": true, "inf": true, "nan": true,
+		"deprecated": true, "opcode": true, "flags": true,
+	}
+	n, tables := 0, 0
+	for _, file := range pkg.Syntax {
+		if strings.HasSuffix(p.Fset.Position(file.Pos()).Filename, "_test.go") {
+			continue
+		}
+		ast.Inspect(file, func(nd ast.Node) bool {
+			cl, ok := nd.(*ast.CompositeLit)
+			if !ok {
+				return true
+			}
+			mt, ok := info.TypeOf(cl).Underlying().(*types.Map)
+			if !ok {
+				return true
+			}
+			kb, okK := mt.Key().Underlying().(*types.Basic)
+			if !okK || kb.Info()&types.IsString == 0 || !strings.HasSuffix(mt.Elem().String(), ".tokenKind") {
+				return true
+			}
+			tables++
+			for _, e := range cl.Elts {
+				kv, ok := e.(*ast.KeyValueExpr)
+				if !ok {
+					continue
+				}
+				tv := info.Types[kv.Key]
+				if tv.Value == nil {
+					c.Undecide("a key of the reserved-word table at %s is not a constant", p.Pos(kv.Pos()))
+					continue
+				}
+				word := strings.Trim(tv.Value.ExactString(), `"`)
+				n++
+				c.Check("R9", fmt.Sprintf("the reserved word %q is one of the format's", word), p.Pos(kv.Pos()), spec[word],
+					fmt.Sprintf("%q is not a reserved word of the Bebop language: an identifier spelled that way (a field, an enum member, a type) is tokenized as %s and the definition that uses it is rejected or silently loses members", word, wire.Canon(kv.Value)))
+			}
+			return true
+		})
+	}
+	c.Count("reserved_words", n)
+	c.Floor("reserved_words", 8)
+	if tables == 0 {
+		c.Undecide("no table from spellings to token kinds found: how reserved words are recognised is not understood")
 	}
 }
